@@ -494,6 +494,21 @@ func deriveAll(in *Instance, id int, frozen bool, out *GraphOut) {
 			ds = append(ds, deriv{"Go x.Slice(0, n-1, 1)", func() starlark.Value { return l.Slice(0, l.Len()-1, 1) }})
 		}
 	}
+	// pure expressions (slicing, then concatenation / repetition): nothing is mutated by anyone
+	for _, e := range graphs.ReadOnlyExprs[nd.Kind] {
+		before := in.Contents(id)
+		rawBefore, _, _, _ := starlark.VerifHeader(v)
+		graphs.Derive(th, e, v, 7)
+		graphs.Derive(th, e, v, 8)
+		out.Derived++
+		after := in.Contents(id)
+		rawAfter, _, _, _ := starlark.VerifHeader(v)
+		_, isTuple := v.(starlark.Tuple)
+		if !graphs.EqVals(before, after) || ((frozen || isTuple) && !bytes.Equal(rawBefore, rawAfter)) {
+			out.Alias = append(out.Alias, Alias{Node: id, Kind: nd.Kind, Frozen: frozen || isTuple, How: e, Mut: "(nothing: the expression only reads x)", Before: before, After: after})
+			return
+		}
+	}
 	for _, dv := range ds {
 		for _, m := range graphs.DerivedMuts {
 			before := in.Contents(id)
@@ -778,7 +793,7 @@ func runGraph(seed uint64, i int, maxProbes int) GraphOut {
 	{
 		dv := graphs.Instantiate(d, src)
 		for _, nd := range d.Nodes {
-			if dv.Objs[nd.ID] == nil || graphs.DerivExprs[nd.Kind] == nil {
+			if dv.Objs[nd.ID] == nil || (graphs.DerivExprs[nd.Kind] == nil && graphs.ReadOnlyExprs[nd.Kind] == nil) {
 				continue
 			}
 			deriveAll(dv, nd.ID, reach[nd.ID] || nd.PreFrozen, &out)
